@@ -3,8 +3,10 @@
 thorough numbers from a tools/run_all.sh thorough log given as argv[1]."""
 import json, re, sys, os
 thor = {}
-if len(sys.argv) > 1 and os.path.exists(sys.argv[1]):
-    for l in open(sys.argv[1]):
+for logf in sys.argv[1:]:
+    if not os.path.exists(logf):
+        continue
+    for l in open(logf):
         m = re.match(r"(C\d\d) rc=(\d+) ([\d.]+)s .*?evaluations=(\d+)", l)
         if m:
             thor[m.group(1)] = (int(m.group(4)), float(m.group(3)), int(m.group(2)))
@@ -12,7 +14,7 @@ print("| Prop | level | space enumerated (from the evidence of the last quick ru
 print("|------|-------|---|-------|----------|")
 for i in range(1, 21):
     P = "C%02d" % i
-    e = json.load(open("/verif/evidence/%s.json" % P))
+    e = json.load(open(os.path.join(os.environ.get("QUICK_EVID", "/verif/evidence"), "%s.json" % P)))
     c = e["coverage"]
     rule = c.get("rule", "").replace("|", "\\|")
     q = "%s evaluations, %.0f s" % (format(c.get("evaluations", 0), ","), e.get("wall_s", 0))
